@@ -86,11 +86,33 @@ func TestVerifC13(t *testing.T) {
 	outcomes := map[string]int64{}
 	sawRefusal, sawSuccessNearCeil, sawReorder := false, false, false
 	ciphers := map[string]bool{}
-	for _, cipherName := range []string{"aes", "chachapoly"} {
-		fx := c13Setup(t, c.Seed(), cipherName)
+	for _, cipherName := range []string{"aes", "chachapoly", "aes-fips140"} {
+		// "aes-fips140": the strictly-increasing-nonce AES-GCM cipher that the FIPS-140 / boringcrypto builds select
+		// (noiseutil.CipherAESGCMFIPS140); it has its own EncryptDanger with its own ceiling test. The tunnel is the "aes"
+		// one with the sending key replaced by a fresh instance of that cipher per schedule; only the lock-needed mode is
+		// explored for it (without the lock its nonce-order self-check panics by design).
+		setupName := cipherName
+		if cipherName == "aes-fips140" {
+			setupName = "aes"
+		}
+		fx := c13Setup(t, c.Seed(), setupName)
 		f := fx.a.f
 		orig := fx.hiDirect
-		ciphers[fmt.Sprintf("%T", orig.ConnectionState.eKey)] = true
+		newEKey := func() noiseutil.CipherState { return orig.ConnectionState.eKey }
+		if cipherName == "aes-fips140" {
+			newEKey = func() noiseutil.CipherState {
+				var k [32]byte
+				for i := range k {
+					k[i] = byte(i*7 + 1)
+				}
+				cs, ok := noiseutil.CipherAESGCMFIPS140.Cipher(k).(noiseutil.CipherState)
+				if !ok {
+					c.Broken("noiseutil.CipherAESGCMFIPS140 does not implement CipherState any more")
+				}
+				return cs
+			}
+		}
+		ciphers[fmt.Sprintf("%T", newEKey())] = true
 
 		const ceil = RejectAfterMessages
 		starts := []uint64{fx.hsIndex, ceil - 4, ceil - 3, ceil - 2, ceil - 1, ceil, ceil + 1}
@@ -133,6 +155,9 @@ func TestVerifC13(t *testing.T) {
 			mixes = mixes[:6]
 		}
 		for _, lockNeeded := range []bool{false, true} {
+			if cipherName == "aes-fips140" && !lockNeeded {
+				continue
+			}
 			noiseutil.EncryptLockNeeded = lockNeeded
 			for _, start := range starts {
 				for _, mix := range mixes {
@@ -150,7 +175,7 @@ func TestVerifC13(t *testing.T) {
 						name := fmt.Sprintf("cipher=%s lock=%v start=%s mix=%v twice=%v", cipherName, lockNeeded, c13CtrName(start, fx.hsIndex), mix, twice)
 						setup := func() {
 							log = log[:0]
-							cs := &ConnectionState{eKey: &c13Rec{orig.ConnectionState.eKey, &log}, dKey: orig.ConnectionState.dKey,
+							cs := &ConnectionState{eKey: &c13Rec{newEKey(), &log}, dKey: orig.ConnectionState.dKey,
 								myCert: orig.ConnectionState.myCert, peerCert: orig.ConnectionState.peerCert, initiator: true, window: NewBits(ReplayWindow)}
 							cs.messageCounter.Store(start)
 							hi := &HostInfo{remoteIndexId: orig.remoteIndexId, localIndexId: orig.localIndexId, vpnAddrs: orig.vpnAddrs, ConnectionState: cs, remotes: orig.remotes}
@@ -236,7 +261,7 @@ func TestVerifC13(t *testing.T) {
 		}
 		fx.net.close()
 	}
-	c.Require(len(ciphers) == 2, "expected two cipher implementations, saw %v", ciphers)
+	c.Require(len(ciphers) == 3, "expected three cipher implementations, saw %v", ciphers)
 	c.Set("cipher_implementations", fmt.Sprint(ciphers))
 	c.Require(sawRefusal && sawSuccessNearCeil, "ceiling region not exercised (refusal=%v success-near-ceiling=%v)", sawRefusal, sawSuccessNearCeil)
 	c.Require(sawReorder, "no schedule delivered nonces to the cipher out of order without the lock: scheduling points ineffective")
